@@ -44,6 +44,8 @@ fn edits_of(p: &Printed) -> Vec<(Edit, &'static str)> {
     for &g in &p.gaps {
         v.push((Edit::Insert(g, "[- c -]"), "block comment between words"));
         v.push((Edit::Insert(g, "[- a\nb -]"), "multi-line block comment between words"));
+        v.push((Edit::Insert(g, "[-- c --]"), "block comment with dashes between words"));
+        v.push((Edit::Insert(g, "[---]"), "block comment of dashes between words"));
     }
     let nl = if p.src.contains('\r') { "\r\n" } else { "\n" };
     for &b in &p.block_starts {
